@@ -1,3 +1,367 @@
-pub fn run(_cli: common::Cli) -> ! {
-    common::machinery("not built yet")
+//! C03: the player is transferred to exactly the target the strategy chose.
+use crate::sim::*;
+use common::refs::codec::Pkt;
+use common::{Cli, Report, Violation, par_for};
+use serde::{Deserialize, Serialize};
+use serde_json::{Value, json};
+use std::collections::HashSet;
+use std::net::IpAddr;
+use std::sync::Mutex;
+use std::sync::atomic::{AtomicU64, Ordering};
+
+#[derive(Clone, Debug, Serialize, Deserialize, PartialEq)]
+pub struct Spec {
+    disc: String,
+    filter: String,
+    strat: String,
+    locale: String,
+    table: String,
+    /// latency (ms) of discovery, filter, strategy
+    lat: [u64; 3],
+}
+
+fn t(id: &str, addr: &str) -> TargetSpec {
+    TargetSpec::new(id, addr)
+}
+
+fn disc_list(name: &str) -> Option<Vec<TargetSpec>> {
+    Some(match name {
+        "empty" => vec![],
+        "v4" => vec![t("a", "10.1.2.3:25565").with_meta("players", "3")],
+        "v6" => vec![t("b", "[2001:db8::1]:65535")],
+        "v4+v6" => vec![t("a", "10.1.2.3:25565"), t("b", "[2001:db8::1]:65535").with_meta("k", "v").with_meta("state", "Ready")],
+        "dup" => vec![t("a", "10.1.2.3:25565"), t("a", "10.1.2.3:25565")],
+        "three" => vec![t("p0", "255.255.255.255:0"), t("p1", "[::ffff:1.2.3.4]:1"), t("", "192.0.2.200:25566").with_meta("", "")],
+        "same-addr-other-id" => vec![t("x", "10.9.9.9:25565"), t("y", "10.9.9.9:25566"), t("z", "10.9.9.10:25565")],
+        "err" => return None,
+        other => common::machinery(&format!("disc {other}")),
+    })
+}
+
+fn foreign() -> TargetSpec {
+    t("foreign", "203.0.113.99:4242").with_meta("injected", "yes")
+}
+
+fn filter_plan(name: &str) -> FilterPlan {
+    match name {
+        "identity" => FilterPlan::Identity,
+        "keep-1" => FilterPlan::Keep(vec![1]),
+        "keep-0-2" => FilterPlan::Keep(vec![0, 2]),
+        "reverse" => FilterPlan::Reverse,
+        "empty" => FilterPlan::Empty,
+        "foreign" => FilterPlan::Foreign(foreign()),
+        "err" => FilterPlan::Err,
+        other => common::machinery(&format!("filter {other}")),
+    }
+}
+
+fn strat_plan(name: &str) -> StratPlan {
+    match name {
+        "pick-0" => StratPlan::Pick(0),
+        "pick-1" => StratPlan::Pick(1),
+        "pick-2" => StratPlan::Pick(2),
+        "none" => StratPlan::None,
+        "foreign" => StratPlan::Foreign(foreign()),
+        "err" => StratPlan::Err,
+        other => common::machinery(&format!("strat {other}")),
+    }
+}
+
+fn apply_filter(p: &FilterPlan, input: &[TargetSpec]) -> Option<Vec<TargetSpec>> {
+    Some(match p {
+        FilterPlan::Identity => input.to_vec(),
+        FilterPlan::Keep(ix) => ix.iter().filter_map(|i| input.get(*i).cloned()).collect(),
+        FilterPlan::Reverse => input.iter().rev().cloned().collect(),
+        FilterPlan::Empty => vec![],
+        FilterPlan::Foreign(f) => vec![f.clone()],
+        FilterPlan::Err => return None,
+    })
+}
+
+fn apply_strat(p: &StratPlan, input: &[TargetSpec]) -> Option<Option<TargetSpec>> {
+    Some(match p {
+        StratPlan::Pick(i) => input.get(*i).cloned(),
+        StratPlan::None => None,
+        StratPlan::Foreign(f) => Some(f.clone()),
+        StratPlan::Err => return None,
+    })
+}
+
+/// (default locale, tables)
+fn table(name: &str) -> (String, Vec<(String, Vec<(String, String)>)>) {
+    let tb = |loc: &str| {
+        (
+            loc.to_string(),
+            vec![
+                ("disconnect_timeout".to_string(), format!("{{\"text\":\"timeout-{loc}\"}}")),
+                ("disconnect_no_target".to_string(), format!("{{\"text\":\"no-target-{loc}\",\"color\":\"red\"}}")),
+            ],
+        )
+    };
+    match name {
+        "en+de+de_at" => ("en_US".into(), vec![tb("en"), tb("de"), tb("de_at")]),
+        "de_de-only" => ("en_US".into(), vec![tb("de_de")]),
+        "none" => ("en_US".into(), vec![]),
+        "default-absent" => ("xx_YY".into(), vec![tb("en"), tb("de")]),
+        "default-de" => ("de".into(), vec![tb("en"), tb("de"), tb("fr")]),
+        "exact-default" => ("en_US".into(), vec![tb("en_US"), tb("en"), tb("fr_FR")]),
+        "plain-text" => ("en".into(), vec![("en".into(), vec![("disconnect_no_target".into(), "No server, sorry".into())]), ("de".into(), vec![("disconnect_no_target".into(), "Kein Server".into())])]),
+        other => common::machinery(&format!("table {other}")),
+    }
+}
+
+/// Independent implementation of the fallback chain: the locale, each prefix obtained by dropping
+/// trailing `_part`s, then the default locale and its prefixes. None = no table in the chain.
+fn expected_message(locale: &str, default_locale: &str, tables: &[(String, Vec<(String, String)>)], key: &str) -> Option<String> {
+    let mut chain: Vec<String> = vec![];
+    for l in [locale, default_locale] {
+        let mut cur = l.to_string();
+        loop {
+            chain.push(cur.clone());
+            match cur.rfind('_') {
+                Some(i) => cur.truncate(i),
+                None => break,
+            }
+        }
+    }
+    for c in chain {
+        if let Some((_, msgs)) = tables.iter().find(|(l, _)| *l == c) {
+            return msgs.iter().find(|(k, _)| k == key).map(|(_, v)| v.clone());
+        }
+    }
+    None
+}
+
+fn text_view(msg: &str) -> Value {
+    if msg.starts_with('{') {
+        fn nbt(v: &Value) -> Value {
+            match v {
+                Value::Bool(b) => json!(*b as i8),
+                Value::Array(a) => Value::Array(a.iter().map(nbt).collect()),
+                Value::Object(o) => Value::Object(o.iter().map(|(k, v)| (k.clone(), nbt(v))).collect()),
+                o => o.clone(),
+            }
+        }
+        nbt(&serde_json::from_str(msg).expect("json message"))
+    } else {
+        json!(msg)
+    }
+}
+
+fn build(s: &Spec) -> Case {
+    let mut case = Case::default();
+    case.script = Login { locale: s.locale.clone(), ..Default::default() }.steps();
+    case.adapters.disc = match disc_list(&s.disc) {
+        Some(l) => DiscPlan::Targets(l),
+        None => DiscPlan::Err,
+    };
+    case.adapters.filter = filter_plan(&s.filter);
+    case.adapters.strat = strat_plan(&s.strat);
+    let (d, tbl) = table(&s.table);
+    case.adapters.loc_default = d;
+    case.adapters.loc_messages = tbl;
+    case.adapters.disc_ms = s.lat[0];
+    case.adapters.filter_ms = s.lat[1];
+    case.adapters.strat_ms = s.lat[2];
+    case.horizon_ms = 120_000;
+    case
+}
+
+fn judge(s: &Spec, obs: &Obs) -> Vec<(String, String)> {
+    let mut v = vec![];
+    let mut bad = |k: String, t: String| v.push((k, t));
+    if let RunResult::Panic(p) = &obs.result {
+        bad("panic".into(), p.clone());
+        return v;
+    }
+    if obs.garbled.is_some() || obs.has("Unknown") || obs.partial_tail > 0 {
+        bad("undecodable-clientbound".into(), format!("{:?} {:?}", obs.garbled, obs.kinds()));
+    }
+    let discovered = disc_list(&s.disc);
+    let filter_in = obs.calls.iter().find_map(|c| if let Call::Filter { targets, .. } = c { Some(targets.clone()) } else { None });
+    let select_in = obs.calls.iter().find_map(|c| if let Call::Select { targets, .. } = c { Some(targets.clone()) } else { None });
+    let transfers: Vec<&Pkt> = obs.packets.iter().map(|(_, p)| p).filter(|p| matches!(p, Pkt::Transfer { .. })).collect();
+    let disconnects: Vec<&Pkt> = obs.packets.iter().map(|(_, p)| p).filter(|p| matches!(p, Pkt::ConfDisconnect { .. })).collect();
+    let count = |k: &str| obs.calls.iter().filter(|c| c.kind() == k).count();
+    if count("discover") != 1 {
+        bad("discovery-call-count".into(), format!("{} discovery calls", count("discover")));
+    }
+    let Some(discovered) = discovered else {
+        if !transfers.is_empty() || filter_in.is_some() || select_in.is_some() {
+            bad("continued-after-discovery-error".into(), format!("calls {:?} packets {:?}", obs.calls.iter().map(|c| c.kind()).collect::<Vec<_>>(), obs.kinds()));
+        }
+        if !obs.result.is_err() {
+            bad("discovery-error-not-reported".into(), format!("{:?}", obs.result));
+        }
+        return v;
+    };
+    if filter_in.as_ref() != Some(&discovered) {
+        bad("filter-input-differs-from-discovery".into(), format!("discovery returned {:?}, the filters were offered {:?}", discovered, filter_in));
+        return v;
+    }
+    let Some(filtered) = apply_filter(&filter_plan(&s.filter), &discovered) else {
+        if !transfers.is_empty() || select_in.is_some() {
+            bad("continued-after-filter-error".into(), format!("packets {:?}", obs.kinds()));
+        }
+        if !obs.result.is_err() {
+            bad("filter-error-not-reported".into(), format!("{:?}", obs.result));
+        }
+        return v;
+    };
+    if select_in.as_ref() != Some(&filtered) {
+        bad("strategy-input-differs-from-filter-output".into(), format!("the filters returned {:?}, the strategy was offered {:?}", filtered, select_in));
+        return v;
+    }
+    let Some(chosen) = apply_strat(&strat_plan(&s.strat), &filtered) else {
+        if !transfers.is_empty() {
+            bad("transfer-after-strategy-error".into(), format!("packets {:?}", obs.kinds()));
+        }
+        if !obs.result.is_err() {
+            bad("strategy-error-not-reported".into(), format!("{:?}", obs.result));
+        }
+        return v;
+    };
+    match chosen {
+        Some(target) => {
+            if transfers.len() != 1 {
+                bad("transfer-count".into(), format!("{} Transfer packets, packets {:?}, result {:?}", transfers.len(), obs.kinds(), obs.result));
+                return v;
+            }
+            if !matches!(obs.packets.last(), Some((_, Pkt::Transfer { .. }))) {
+                bad("transfer-not-last".into(), format!("packets {:?}", obs.kinds()));
+            }
+            if let Pkt::Transfer { host, port } = transfers[0] {
+                let ip: Option<IpAddr> = host.parse().ok();
+                let fam = if target.addr.is_ipv4() { "ipv4" } else { "ipv6" };
+                if ip != Some(target.addr.ip()) {
+                    bad(format!("transfer-host:{fam}"), format!("Transfer to host {host:?} but the chosen target is {}", target.addr));
+                }
+                if *port != target.addr.port() as i32 {
+                    bad(format!("transfer-port:{}", target.addr.port()), format!("Transfer to port {port} but the chosen target is {}", target.addr));
+                }
+            }
+            if !disconnects.is_empty() {
+                bad("disconnect-and-transfer".into(), format!("packets {:?}", obs.kinds()));
+            }
+            if obs.result != RunResult::Ok {
+                bad("transfer-but-error".into(), format!("{:?}", obs.result));
+            }
+        }
+        None => {
+            if !transfers.is_empty() {
+                bad("transfer-without-chosen-target".into(), format!("packets {:?}", obs.kinds()));
+            }
+            if disconnects.len() != 1 {
+                bad("no-target-disconnect-count".into(), format!("{} Disconnect packets; packets {:?}", disconnects.len(), obs.kinds()));
+                return v;
+            }
+            if !matches!(obs.packets.last(), Some((_, Pkt::ConfDisconnect { .. }))) {
+                bad("disconnect-not-last".into(), format!("packets {:?}", obs.kinds()));
+            }
+            let (d, tbl) = table(&s.table);
+            if let Some(msg) = expected_message(&s.locale, &d, &tbl, "disconnect_no_target") {
+                if let Pkt::ConfDisconnect { reason } = disconnects[0] {
+                    if *reason != text_view(&msg) {
+                        // classify: did the server answer in the default locale's message?
+                        let default_msg = expected_message(&d, &d, &tbl, "disconnect_no_target");
+                        let class = if default_msg.as_deref().map(text_view).as_ref() == Some(reason) { "default-locale-used" } else { "other-text" };
+                        bad(format!("no-target-text:{class}"), format!("client locale {:?}, tables {:?} (default {d}): Disconnect text {reason} but the configured message is {msg}", s.locale, s.table));
+                    }
+                }
+            }
+            if !matches!(&obs.result, RunResult::Err { kind, .. } if kind == "NoTargetFound") {
+                bad("no-target-result".into(), format!("{:?}", obs.result));
+            }
+        }
+    }
+    v
+}
+
+fn specs(thorough: bool) -> Vec<Spec> {
+    let mut v = vec![];
+    let discs = ["empty", "v4", "v6", "v4+v6", "dup", "three", "same-addr-other-id", "err"];
+    let filters = ["identity", "keep-1", "keep-0-2", "reverse", "empty", "foreign", "err"];
+    let strats = ["pick-0", "pick-1", "pick-2", "none", "foreign", "err"];
+    let lats: Vec<[u64; 3]> = if thorough {
+        vec![[0, 0, 0], [17_000, 0, 0], [0, 17_000, 0], [0, 0, 17_000], [17_000, 17_000, 17_000], [1, 1, 1]]
+    } else {
+        vec![[0, 0, 0], [17_000, 0, 17_000]]
+    };
+    for d in discs {
+        for f in filters {
+            for st in strats {
+                for lat in &lats {
+                    v.push(Spec { disc: d.into(), filter: f.into(), strat: st.into(), locale: "de_de".into(), table: "en+de+de_at".into(), lat: *lat });
+                }
+            }
+        }
+    }
+    let long = "l".repeat(64);
+    let locales = ["en_us", "de_de", "de_at", "de_AT", "de", "fr_FR", "xx_yy", "", "_", "de_", "a_b_c", "de_de_x", "DE_de", long.as_str()];
+    let tables = ["en+de+de_at", "de_de-only", "none", "default-absent", "default-de", "exact-default", "plain-text"];
+    for l in locales {
+        for tb in tables {
+            for (d, st) in [("v4", "none"), ("empty", "pick-0")] {
+                v.push(Spec { disc: d.into(), filter: "identity".into(), strat: st.into(), locale: l.into(), table: tb.into(), lat: [0, 0, 0] });
+            }
+        }
+    }
+    v
+}
+
+pub fn run(cli: Cli) -> ! {
+    let rep = Report::new("C03", cli.tier, "model_checking");
+    if let Some(case) = cli.replay.clone() {
+        let s: Spec = serde_json::from_value(case["spec"].clone()).unwrap_or_else(|e| common::machinery(&format!("bad replay: {e}")));
+        let (a, b) = (crate::sim::run(&build(&s)), crate::sim::run(&build(&s)));
+        if a.kinds() != b.kinds() || a.result != b.result {
+            common::machinery("two replays of the same case differ");
+        }
+        println!("spec: {}", serde_json::to_string(&s).unwrap());
+        println!("observed: {}", serde_json::to_string_pretty(&a.to_json()).unwrap());
+        for (k, t) in judge(&s, &a) {
+            rep.violation(Violation { key: k, text: t, replay: case.clone(), weight: 0 });
+        }
+        rep.set("states", json!(1));
+        rep.set("transitions", json!(a.packets.len().max(1)));
+        rep.set("traces_validated_against_impl", json!(1));
+        rep.finish();
+    }
+    let all = specs(cli.tier.thorough());
+    let distinct: Mutex<HashSet<String>> = Mutex::new(HashSet::new());
+    let transfers = AtomicU64::new(0);
+    let disconnects = AtomicU64::new(0);
+    let transitions = AtomicU64::new(0);
+    par_for(all.len(), |i| {
+        let s = &all[i];
+        let obs = crate::sim::run(&build(s));
+        transitions.fetch_add(obs.packets.len() as u64 + obs.calls.len() as u64 + 1, Ordering::Relaxed);
+        if obs.has("Transfer") {
+            transfers.fetch_add(1, Ordering::Relaxed);
+        }
+        if obs.has("ConfDisconnect") {
+            disconnects.fetch_add(1, Ordering::Relaxed);
+        }
+        distinct.lock().unwrap().insert(format!("{:?}|{}", obs.trace_no_keepalive(), obs.result.kind()));
+        for (k, t) in judge(s, &obs) {
+            rep.violation(Violation { key: k, text: format!("{t}; spec {}", serde_json::to_string(s).unwrap()), replay: json!({"spec": s}), weight: i as u64 });
+        }
+    });
+    let d = distinct.lock().unwrap().len() as u64;
+    rep.require("runs with a Transfer", transfers.load(Ordering::Relaxed), 50);
+    rep.require("runs with a Disconnect", disconnects.load(Ordering::Relaxed), 50);
+    rep.require("distinct observations", d, 20);
+    rep.set("states", json!(all.len()));
+    rep.set("transitions", json!(transitions.load(Ordering::Relaxed)));
+    rep.set("traces_validated_against_impl", json!(all.len()));
+    rep.set("evaluations", json!(all.len()));
+    rep.set("distinct_nontrivial", json!(d));
+    rep.set("exhaustive", json!(true));
+    rep.set("rule", json!("full product discovery(8) x filter(7) x strategy(6) x adapter latencies, plus client locale(14) x localisation table(7) on both no-target paths; distinct_nontrivial = distinct (clientbound trace without keep-alives, result)"));
+    rep.sample(json!({"spec": all[0]}));
+    rep.sample(json!({"spec": Spec { disc: "v4+v6".into(), filter: "reverse".into(), strat: "pick-0".into(), locale: "de_de".into(), table: "en+de+de_at".into(), lat: [0, 0, 0] }, "expect": "Transfer to 2001:db8::1 port 65535"}));
+    rep.sample(json!({"spec": Spec { disc: "v4".into(), filter: "identity".into(), strat: "none".into(), locale: "de_AT".into(), table: "en+de+de_at".into(), lat: [0, 0, 0] }, "expect": "Disconnect with the 'de' message (de_AT -> de)"}));
+    rep.assume("locale keys are compared as exact strings (the statement does not define case folding); when no table exists for the whole chain only 'exactly one Disconnect, no Transfer' is judged");
+    rep.assume("Transfer host is compared as an IP address, not as text");
+    rep.finish()
 }
